@@ -1465,6 +1465,9 @@ def merge_allof(doc, schemas):
 class _Gen:
     def __init__(self, rng, doc, mode="random"):
         self.rng, self.doc, self.mode = rng, doc, mode
+        # "all_present@k": every optional member present, and the k-th inhabited branch of every union (first attempt)
+        self.branch = None
+        if mode.startswith("all_present@"): self.branch = int(mode.split("@")[1]); self.mode = "all_present"
         self.H = _Heights(doc)
 
     def coin(self, p): return self.rng.random() < p
@@ -1503,6 +1506,7 @@ class _Gen:
                     nn = [i for i in cand if not (isinstance(branches[i], dict) and branches[i].get("type") == "null")]
                     if nn and len(nn) < len(cand) and depth > 0 and mode != "min" and not self.coin(0.25): cand = nn
                     i = rng.choice(cand)
+                    if self.branch is not None and attempt == 0 and depth > 0: i = ok[self.branch % len(ok)]
                     try:
                         b = branches[i]
                         v = self.gen({"allOf": [rest, b]} if rest else b, depth)
@@ -1700,7 +1704,7 @@ def gen_valid(rng, doc, schema, depth=3, mode="random"):
     raise Unsat("generated instances failed the self check" if last is None else str(last))
 
 
-BOUNDARY_MODES = ["min", "max", "all_omitted", "all_present", "multibyte", "empty_present"]
+BOUNDARY_MODES = ["min", "max", "all_omitted", "all_present", "multibyte", "empty_present", "all_present@0", "all_present@1", "all_present@2"]
 
 
 def gen_boundary(rng, doc, schema, depth=3, float_ints=False):
@@ -1714,8 +1718,9 @@ def gen_boundary(rng, doc, schema, depth=3, float_ints=False):
     out, seen = [], set()
     for m in BOUNDARY_MODES:
         try:
-            v = gen_valid(rng, doc, schema, depth, mode=m)
-        except Unsat:
+            # (the branch-covering modes look deeper: the members of the members of a variant's payload are what differs)
+            v = gen_valid(rng, doc, schema, depth + 3 if "@" in m else depth, mode=m)
+        except (Unsat, RecursionError):
             continue
         c = canon(v)
         if c in seen: continue
